@@ -500,6 +500,98 @@ theorem code_point_echo (fin : Bytes → Bytes) (i : Input) (ee : ServerEE)
             subst hs
             exact ⟨raw, _, rfl, marshal_unmarshal_alps _ _ _ hcp' hm, rfl⟩
 
+/-! ## resumed handshakes
+
+Seeded change C22-4 skipped the client EncryptedExtensions on a PSK-resumed handshake. The property
+text makes no exception for resumption ("When the server negotiates application settings … the
+client … sends its own configured settings … in a client EncryptedExtensions message covered by the
+handshake transcript"), and neither does the code: stated explicitly for **every** value of
+`resumed`. -/
+
+/-- **Answered also when resumed.** For a full (`resumed = false`) and for a resumed
+(`resumed = true`) TLS 1.3 handshake alike: under the hypotheses of `alps_exposed_and_answered` the
+run completes, exposes the server's bytes, and its flight starts with the client
+EncryptedExtensions (same code point, `ApplicationSettings[proto]`) covered by the Finished; on a
+resumed handshake the flight is exactly `[EE, Finished(fin(T0 ++ EE))]` and a server that hashes
+the EE accepts it. -/
+theorem alps_answered_also_when_resumed (fin : Bytes → Bytes) (resumed : Bool) (i : Input)
+    (ee : ServerEE) (proto : Bytes)
+    (hv : i.vers = VersionTLS13)
+    (hee : ServerEE.unmarshal i.eeRaw = some ee)
+    (hcp : ee.alpsCp = cpOld ∨ ee.alpsCp = cpNew)
+    (halpn : ee.alpn = proto) (hne : proto ≠ []) (hoff : proto ∈ i.offeredAlpn)
+    (hq : ee.quicTP = none) (he : ee.earlyData = false)
+    (hlen : ((lookup i.cfg proto).getD []).length ≤ 65531) :
+    ∃ cee,
+      ClientEE.unmarshal cee = some { cp := ee.alpsCp, settings := (lookup i.cfg proto).getD [] } ∧
+      (runConn fin resumed i).err = none ∧
+      (runConn fin resumed i).conn.utls.peer = ee.alps ∧
+      (∃ rest, (runConn fin resumed i).flight.wire = cee :: rest) ∧
+      (resumed = true →
+        (runConn fin resumed i).flight.wire = [cee, finishedMsg (fin (i.T0 ++ cee))] ∧
+        serverAccepts fin i.T0 true (runConn fin resumed i).flight.wire = true) := by
+  cases resumed with
+  | false =>
+    obtain ⟨cee, hu, _, herr, hpeer, _, hw, _⟩ :=
+      alps_exposed_and_answered fin i ee proto hv hee hcp halpn hne hoff hq he hlen
+    refine ⟨cee, hu, ?_, ?_, ?_, by simp⟩
+    · simpa [runConn] using herr
+    · simpa [runConn] using hpeer
+    · exact ⟨i.cert ++ [finishedMsg (fin (i.T0 ++ cee ++ i.cert.flatten))], by simpa [runConn] using hw⟩
+  | true =>
+    obtain ⟨cee, hu, hh, herr, hpeer, _, hw, _⟩ :=
+      alps_exposed_and_answered fin { i with cert := [] } ee proto hv hee hcp halpn hne hoff hq he hlen
+    have hw' : (runConn fin true i).flight.wire = [cee, finishedMsg (fin (i.T0 ++ cee))] := by
+      simpa [runConn] using hw
+    refine ⟨cee, hu, ?_, ?_, ⟨_, hw'⟩, fun _ => ⟨hw', ?_⟩⟩
+    · simpa [runConn] using herr
+    · simpa [runConn] using hpeer
+    · rw [hw']; simp [serverAccepts, hu, hh]
+
+/-- **EE iff ALPS, for full and resumed handshakes alike** (`code_point_echo` for every `resumed`):
+a completed run wrote a client EncryptedExtensions as its first message iff the server's
+EncryptedExtensions carried ALPS, on the server's code point. -/
+theorem ee_iff_alps_any_resumption (fin : Bytes → Bytes) (resumed : Bool) (i : Input) (ee : ServerEE)
+    (hv : i.vers = VersionTLS13) (hee : ServerEE.unmarshal i.eeRaw = some ee)
+    (hok : (runConn fin resumed i).err = none) :
+    (ee.alpsCp = 0 → ∀ m ∈ (runConn fin resumed i).flight.wire,
+        m ∈ i.cert ∨ ∃ v, m = finishedMsg v) ∧
+    (ee.alpsCp ≠ 0 → ∃ cee rest m, (runConn fin resumed i).flight.wire = cee :: rest ∧
+        ClientEE.unmarshal cee = some m ∧ m.cp = ee.alpsCp) := by
+  cases resumed with
+  | false =>
+    have hok' : (run fin i).err = none := by simpa [runConn] using hok
+    obtain ⟨_, h0, h1⟩ := code_point_echo fin i ee hv hee hok'
+    constructor
+    · intro hz m hm
+      have : (runConn fin false i).flight.wire = (run fin i).flight.wire := by simp [runConn]
+      rw [this, h0 hz] at hm
+      rcases List.mem_append.mp hm with h | h
+      · exact Or.inl h
+      · exact Or.inr ⟨_, by simpa using h⟩
+    · intro hn
+      obtain ⟨cee, m, hw, hu, hc⟩ := h1 hn
+      exact ⟨cee, _, m, by simpa [runConn] using hw, hu, hc⟩
+  | true =>
+    have hok' : (run fin { i with cert := [] }).err = none := by simpa [runConn] using hok
+    obtain ⟨_, h0, h1⟩ := code_point_echo fin { i with cert := [] } ee hv hee hok'
+    constructor
+    · intro hz m hm
+      have : (runConn fin true i).flight.wire = (run fin { i with cert := [] }).flight.wire := by simp [runConn]
+      rw [this, h0 hz] at hm
+      exact Or.inr ⟨_, by simpa using hm⟩
+    · intro hn
+      obtain ⟨cee, m, hw, hu, hc⟩ := h1 hn
+      exact ⟨cee, _, m, by simpa [runConn] using hw, hu, hc⟩
+
+example :
+    let i : Input := { vers := VersionTLS13, offeredAlpn := [[0x68, 0x32]], cfg := [([0x68, 0x32], [7, 7])],
+                       eeRaw := serverEEMsg [(extALPN, alpnBody [0x68, 0x32]), (cpOld, [1])],
+                       cert := [[11, 0, 0, 0]] }
+    (runConn id true i).flight.wire.map ClientEE.unmarshal = [some { cp := cpOld, settings := [7, 7] }, none] ∧
+      (runConn id false i).flight.wire.length = 3 := by
+  decide
+
 /-- `no ALPS ⇒ no EncryptedExtensions`, seen from the server: with nothing negotiated the stock
 server (which does not expect the message) accepts the flight. -/
 theorem no_alps_plain_flight_accepted (fin : Bytes → Bytes) (i : Input) (ee : ServerEE)
